@@ -2,7 +2,7 @@
    decision tree [scope_tree] run on the atoms of the request. *)
 From Coq Require Import String List Bool NArith ZArith.
 From OP Require Import Base.Str Base.Check Base.ParserTypes Base.Res Base.Json Base.DTree
-                       Gen.GPolicy Model.Leaf Model.Eval.
+                       Gen.GPolicy Model.Leaf Model.Eval Model.Trace.
 Import ListNotations.
 Set Implicit Arguments.
 
@@ -101,4 +101,34 @@ Definition authorize (x : ectx) (ca : credarg) (n : str) (do_raise : bool) (exc 
   match assoc n (e_registered x) with
   | None => Raise EPolicyNotRegistered
   | Some _ => enforce x ca (RName n) do_raise exc
+  end.
+
+(* what the recording leaves observe during that call (same gates, instrumented evaluator) *)
+Definition enforce_trace (x : ectx) (ca : credarg) (r : rulearg) (do_raise : bool) : list event :=
+  match ca with
+  | CNotMapping => []
+  | CMapping creds0 =>
+      let creds := mirror creds0 in
+      let w := with_creds (e_world x) creds in
+      match r with
+      | RObj c types =>
+          match gate x creds types do_raise with
+          | Ok true => snd (eval_tr (fuel_for (w_rules w)) w None c)
+          | _ => []
+          end
+      | RName n =>
+          match w_rules w with
+          | [] => []
+          | _ =>
+            match lookup (w_rules w) (w_default w) n with
+            | None => []
+            | Some c =>
+                let types := match assoc n (e_registered x) with Some t => t | None => [] end in
+                match gate x creds types do_raise with
+                | Ok true => snd (eval_tr (fuel_for (w_rules w)) w (Some n) c)
+                | _ => []
+                end
+            end
+          end
+      end
   end.
